@@ -17,6 +17,7 @@ decls  : compute declarations `id|isAgg|win|ex` separated by `;`
 asplit <decls> <pipe> <output cids>  ->  rest=<n> missing=<cids> select=<cids> kept=<pipe>
 aanchor <next> <cids at split> <pipe> ->  new=<cids> pipe=<pipe>
 areorder <pipe> -> <pipe>   (preprocess::reorder)
+aextract <decls> <pipe> <next> <requested output> -> out=<cids> select_is_output=<bool> stashed=<n> atomic=<pipe>   (extract_atomic)
 -/
 namespace Drv.Anchor
 open Model.Anchor
@@ -157,6 +158,13 @@ def handle (fields : List String) : Option String :=
       let (new, q) := anchorSplit n cs p
       some s!"new={showCids new} pipe={showPipe q}"
     | _, _, _ => some "bad-request"
+  | ["aextract", d, p, next, out] =>
+    match decls d, pipe p, next.toNat?, cids out with
+    | some d, some p, some n, some out =>
+      let e := extractAtomic d n p out
+      let selOk := selectOf e.atomic == some e.output
+      some s!"out={showCids e.output} select_is_output={selOk} dsc={showCids (determineSelect p)} stashed={e.stashed.length} atomic={showPipe e.atomic}"
+    | _, _, _, _ => some "bad-request"
   | ["areorder", p] =>
     match pipe p with
     | some p => some (showPipe (Model.Reorder.reorderTr p))
